@@ -10,6 +10,7 @@ import (
 	"github.com/emersion/go-webdav/verifharness/davx"
 	"github.com/emersion/go-webdav/verifharness/doubles"
 	"github.com/emersion/go-webdav/verifharness/fw"
+	"github.com/emersion/go-webdav/verifharness/xmltree"
 )
 
 // world is one generated backend content plus the client calls made on it
@@ -480,6 +481,81 @@ func (k *chk) readMS(group, op string, exs []doubles.Exchange) *davx.MultiStatus
 	return last
 }
 
+// requestHrefs reads the DAV:href children of a REPORT request body.
+func requestHrefs(body []byte) ([]string, bool) {
+	root, err := xmltree.Parse(body)
+	if err != nil || root == nil {
+		return nil, false
+	}
+	var out []string
+	for _, ch := range root.Elems() {
+		if ch.Space == "DAV:" && ch.Local == "href" {
+			p, err := davx.HrefPath(ch.TextContent())
+			if err != nil {
+				return nil, false
+			}
+			out = append(out, p)
+		}
+	}
+	return out, true
+}
+
+// multigetAnswers reads the answer(s) to one multiget call. The statement
+// obliges the server per request and the client per call, so a client may
+// spread the caller's list over several REPORT requests: each answer is then
+// judged against the hrefs of its own request, and the answers are taken
+// together in the order of the requests when these add up to the caller's
+// list; when they do not, ms is nil and only the client's result is judged.
+// faulty reports that an answer was found wanting against its own request.
+func (k *chk) multigetAnswers(group, op string, exs []doubles.Exchange, paths []string) (ms *davx.MultiStatus, faulty bool) {
+	var answered []doubles.Exchange
+	for _, ex := range exs {
+		if ex.Status == 207 {
+			answered = append(answered, ex)
+		}
+	}
+	if len(answered) <= 1 {
+		return k.readMS(group, op, exs), false
+	}
+	k.c.Observe("multiget: requests per call", fmt.Sprintf("%s: %d answered requests for one call", k.proto, len(answered)), 1)
+	merged := &davx.MultiStatus{}
+	var asked []string
+	whole := true
+	for _, ex := range answered {
+		one := k.readMS(group, op, []doubles.Exchange{ex})
+		hrefs, ok := requestHrefs(ex.Body)
+		if one == nil || !ok {
+			whole = false
+			continue
+		}
+		var rp []string
+		for i := range one.Responses {
+			p := ""
+			if len(one.Responses[i].Paths) == 1 {
+				p = one.Responses[i].Paths[0]
+			}
+			rp = append(rp, p)
+		}
+		switch _, problem, at := matchPaths(hrefs, rp); problem {
+		case "count":
+			whole, faulty = false, true
+			k.report(group, "server→wire", "multiget responses", map[bool]string{true: "fewer responses than requested hrefs", false: "more responses than requested hrefs"}[len(rp) < len(hrefs)], op, hrefs, rp, nil)
+		case "reordered":
+			whole, faulty = false, true
+			k.report(group, "server→wire", "multiget responses", "not in request order", op, hrefs, rp, nil)
+		case "path":
+			whole, faulty = false, true
+			k.report(group, "server→wire", "Path", classify(hrefs[at], rp[at]), op, hrefs[at], rp[at], nil)
+		}
+		asked = append(asked, hrefs...)
+		merged.Responses = append(merged.Responses, one.Responses...)
+	}
+	if !whole || strings.Join(asked, "\x00") != strings.Join(paths, "\x00") {
+		return nil, faulty
+	}
+	return merged, faulty
+}
+
 func propText(r *davx.Response, space, local string) (string, bool) {
 	p, code := r.Prop(space, local)
 	if p == nil || code != 200 {
@@ -865,11 +941,11 @@ func (k *chk) checkMultiget(w *world, paths []string) {
 		return
 	}
 	k.observeCall(op, err, anyFail)
-	ms := k.readMS(group, op, k.st.exchanges())
+	ms, faulty := k.multigetAnswers(group, op, k.st.exchanges(), paths)
 
 	// wire level: one response per requested href, in request order, the
 	// object or the backend's own status
-	wireOK := true
+	wireOK := !faulty
 	var wireFields []map[string]string
 	var wireObjs []*nObj
 	if ms != nil {
